@@ -18,9 +18,12 @@ def run(ctx):
         return
     rc, out = ctx.go_test("node", "./pkg/ethereum", "^TestVerifEvm$", ov, timeout=1500 if ctx.tier == "thorough" else 400)
     src = os.path.join(ctx.work, "evm.cases")
-    if rc != 0 or not os.path.exists(src):
+    if not os.path.exists(src):
         ctx.broken.append(("tie", "go-harness", out[-1500:]))
         return
+    if rc != 0:
+        # the process under test crashed or the harness failed: still judge the cases written before that
+        ctx.broken.append(("tie", "go-harness", out[-1500:]))
     ops = {}
     ids = set()
     samples = []
